@@ -46,7 +46,7 @@ type Case struct {
 	NeedsOpen bool   // Writer modes: register the landmark names in needsOpenGzEntries
 	Reuse     bool   // the input is an eStargz blob built from Calls[0] beforehand
 	Trailing  int    // bytes of garbage after the end-of-archive marker of each input tar
-	Finding   bool   // stream of the candidate finding (MinChunkSize > 0 and a second AppendTar)
+	Finding   bool   // belongs to the separate findings pass (known finding unpack-empty-layer)
 }
 
 func (c *Case) EffChunk() int {
@@ -268,15 +268,22 @@ func Scenarios(t *Target) []Case {
 		add(Case{Label: "default-chunk-boundary-build", Mode: "B", Calls: [][]Ent{big}, Chunk: 0, Workers: 2, Level: 1})
 		add(Case{Label: "default-chunk-boundary-writer", Mode: "W", Calls: [][]Ent{big}, Chunk: 0, MinChunk: 5 << 20, Level: 1})
 	}
-	// the stream of the candidate findings
-	add(Case{Label: "finding-two-calls-minchunk", Mode: "W", Finding: true, MinChunk: 1000, Chunk: 0,
+	// regression scenarios of the two defects repaired in /repo (6f1f089, caf62f4)
+	add(Case{Label: "two-calls-minchunk", Mode: "W", MinChunk: 1000, Chunk: 0,
 		Calls: [][]Ent{{reg("a", pat(10, 1)), reg("b", pat(10, 2))}, {reg("c", pat(10, 3)), reg("d", pat(10, 4))}}})
-	add(Case{Label: "finding-two-calls-minchunk-lossless", Mode: "L", Finding: true, MinChunk: 500, Chunk: 64,
+	add(Case{Label: "two-calls-minchunk-lossless", Mode: "L", MinChunk: 500, Chunk: 64,
 		Calls: [][]Ent{{reg("a", pat(100, 1))}, {reg("c", pat(200, 3)), reg("d", pat(10, 4))}}})
-	add(Case{Label: "finding-verifytoc-minchunk-build", Mode: "B", Finding: true, MinChunk: 5000, Chunk: 100, Workers: 2,
+	add(Case{Label: "three-calls-minchunk-empty-middle", Mode: "W", MinChunk: 100000, Chunk: 50,
+		Calls: [][]Ent{{reg("a", pat(120, 1))}, {}, {dir("d/"), reg("d/c", pat(70, 3)), reg("e", nil)}}})
+	add(Case{Label: "verifytoc-minchunk-build", Mode: "B", MinChunk: 5000, Chunk: 100, Workers: 2,
 		Calls: [][]Ent{{reg("a", pat(250, 1)), reg("b", pat(10, 2))}}})
-	add(Case{Label: "finding-verifytoc-minchunk-writer", Mode: "W", Finding: true, MinChunk: 5000, Chunk: 100,
+	add(Case{Label: "verifytoc-minchunk-writer", Mode: "W", MinChunk: 5000, Chunk: 100,
 		Calls: [][]Ent{{reg("a", pat(250, 1)), reg("b", pat(10, 2))}}})
+	add(Case{Label: "verifytoc-minchunk-empty-file-after-data", Mode: "W", MinChunk: 5000, Chunk: 100,
+		Calls: [][]Ent{{reg("a", pat(30, 1)), reg("empty", nil), reg("b", pat(10, 2)), reg("empty2", nil)}}})
+	add(Case{Label: "verifytoc-minchunk-empty-file-build", Mode: "B", MinChunk: 100000, Chunk: 100, Workers: 3,
+		Calls: [][]Ent{{reg("empty0", nil), reg("a", pat(30, 1)), reg("empty", nil)}}, Prio: []string{"a"}})
+	// the separate findings pass: the known finding unpack-empty-layer
 	add(Case{Label: "finding-unpack-empty-writer", Mode: "W", Finding: true, Chunk: 100, Calls: [][]Ent{{}}})
 	add(Case{Label: "finding-unpack-no-calls", Mode: "W", Finding: true, Chunk: 100, Calls: [][]Ent{}})
 	return out
@@ -284,24 +291,17 @@ func Scenarios(t *Target) []Case {
 
 var xattrKeys = []string{"user.a", "security.selinux", "trusted.overlay.opaque"}
 
-// Generate makes one random case.  findings: force the shape of the candidate finding (several
-// AppendTar calls with MinChunkSize > 0); the main stream never has that shape.
+// Generate makes one random case (main stream only; the findings pass has scenarios only).
 func Generate(r *verifutil.Rand, t *Target, i int, findings bool) Case {
 	c := Case{Label: fmt.Sprintf("gen%d", i)}
 	c.Mode = []string{"B", "B", "B", "W", "W", "L"}[r.Intn(6)]
-	if findings {
-		c.Mode = []string{"W", "W", "L"}[r.Intn(3)]
-	}
 	c.Chunk = []int{0, 1, 3, 7, 64, 100, 512, 1000, 4096}[r.Pick(1, 1, 2, 3, 4, 4, 4, 3, 2)]
 	ec := c.Chunk
 	if ec <= 0 {
 		ec = 2000
 	}
-	if r.Intn(5) < 2 || findings {
+	if r.Intn(5) < 2 {
 		c.MinChunk = []int{1, ec / 2, ec, 3 * ec, 10000, 1 << 20}[r.Intn(6)]
-		if c.MinChunk == 0 {
-			c.MinChunk = 1
-		}
 	}
 	c.Level = []int{-2, -1, 0, 1, 6, 9}[r.Intn(6)]
 	c.Workers = 1 + r.Intn(4)
@@ -310,16 +310,8 @@ func Generate(r *verifutil.Rand, t *Target, i int, findings bool) Case {
 	}
 	c.Format = []tar.Format{tar.FormatUnknown, tar.FormatPAX, tar.FormatGNU, tar.FormatUSTAR}[r.Intn(4)]
 	ncalls := 1
-	if c.Mode != "B" && (r.Intn(4) == 0 || findings) {
+	if c.Mode != "B" && r.Intn(3) == 0 {
 		ncalls = 2 + r.Intn(2)
-	}
-	if ncalls > 1 && c.MinChunk > 0 {
-		if findings {
-			c.Finding = true
-			c.Label = fmt.Sprintf("finding-gen%d", i)
-		} else {
-			c.MinChunk = 0
-		}
 	}
 	sizes := boundarySizes(ec)
 	var names []string // regular files so far (hardlink targets, prioritized candidates)
